@@ -156,7 +156,7 @@ class EffectsQ:
 class ReopenQ(EffectsQ):
     """effects mode over the reopen and drop paths (memory.rs map_mut_in / map_in with their closures, unmount; Options::open; Arena::from): obligations R1-R7 of C05"""
     name, props = "effects_reopen_path", ["C05", "C06", "C08", "C09"]
-    module, native_flag, min_obligations = "mirsmt.reopen", "--reopen-check", 10
+    module, native_flag, min_obligations = "mirsmt.reopen", "--reopen-check", 11
     cross_check = True
     relevant = {"C06": ("R1",), "C08": ("R1",), "C09": ("R4",)}  # C09: the read-only open (no store, read_only set, too-small file refused)  # C06's crash model and C08's "reopened file" clause rest on the zeroing the real closure performs
 
